@@ -26,6 +26,12 @@ class GateV:
             return GateV(None, kind='phase', coefficient=self.coefficient ** e, n=0)
         if self.kind == 'identity':
             return self
+        if self.kind == 'matrix':
+            if e == 1:
+                return self
+            if e == -1:
+                return GateV(None, kind='matrix', coefficient=np.conj(self.coefficient).T, n=self.n)
+            raise fdx.Unsupported('power of a matrix-valued gate')
         return GateV(self.fam, self.exponent * e, self.shift, self.kind)
 
     def on(self, *qs):
@@ -113,6 +119,8 @@ def gate_matrix(repo, comps_cache, g: GateV):
         return np.array([[g.coefficient]], dtype=complex)
     if g.kind == 'identity':
         return np.eye(2 ** g.n, dtype=complex)
+    if g.kind == 'matrix':
+        return np.asarray(g.coefficient, dtype=complex)
     key = g.fam
     if key not in comps_cache:
         ci = repo.cls(key)
